@@ -58,11 +58,11 @@ Proof.
   pose proof (Qabs_nonneg b). lra.
 Qed.
 
-(* refinement: on every string that does not end in a newline, what the model of Size.from_string returns is
+(* refinement: on every string, what the model of Size.from_string returns is
    what the size language prescribes: the denoted value and unit, or the syntax error *)
-Theorem ok_parse_model : forall s, ~ ends_in_newline s -> ok_parse s (obs_of (size_from_string s)) = true.
+Theorem ok_parse_model : forall s, ok_parse s (obs_of (size_from_string s)) = true.
 Proof.
-  intros s Hnl. unfold ok_parse, spec_parse, size_from_string. rewrite (chop_no_newline _ Hnl).
+  intros s. unfold ok_parse, spec_parse, size_from_string.
   destruct (str_eqb s (lit "0")) eqn:E0.
   - apply str_eqb_eq in E0. subst s. reflexivity.
   - destruct (spec_split s) as [[num u]|] eqn:E.
@@ -73,7 +73,7 @@ Proof.
       unfold size_from_string in Hv. cbn zeta in Hv.
       assert (Es : s = ip ++ match fp with [] => [] | _ :: _ => 46 :: fp end ++ unit_str u).
       { rewrite E. unfold dotted. rewrite <- app_assoc. reflexivity. }
-      rewrite <- Es in Hv. rewrite (chop_no_newline _ Hnl) in Hv. rewrite Hv. cbn [obs_of s_val s_unit].
+      rewrite <- Es in Hv. rewrite Hv. cbn [obs_of s_val s_unit].
       rewrite q_rel_close_eq by (rewrite Hvq, Hq; reflexivity).
       assert (Eu : unit_eqb u u = true) by (apply unit_eqb_eq; reflexivity). rewrite Eu. reflexivity.
     + assert (Hn : ~ size_lang s).
